@@ -16,10 +16,11 @@ def dominant_bpm(m: Map):
         The dominant BPM as a np.float64
     """
     s = m.stack()
+    bpms = m.bpms.sorted()
     return (
         pd
         # Append the last object offset of the note to the bpm offsets
-        .concat([m.bpms.offset, pd.Series(s.offset.max())])
+        .concat([bpms.offset, pd.Series(s.offset.max())])
         # Sort in case it's not sorted
         .sort_values()
         # Get intervals between bpm
@@ -27,7 +28,7 @@ def dominant_bpm(m: Map):
         # Drop NA created by diff
         .dropna()
         # Set index/axis to bpm for grouping
-        .set_axis(m.bpms.bpm)
+        .set_axis(bpms.bpm)
         # Group by the bpm
         .groupby(level=0)
         # Sum groups
